@@ -149,6 +149,23 @@ class Origin:
         with self.lock:
             return list(self.arrivals)
 
+    def close_conns(self):
+        """Release every held response and close every accepted connection (end of a history)."""
+        with self.lock:
+            conns = list(self.conns.values())
+            evs = list(self.events.values())
+        for e in evs:
+            e.set()
+        for c in conns:
+            try:
+                c.shutdown(socket.SHUT_RDWR)
+            except OSError:
+                pass
+            try:
+                c.close()
+            except OSError:
+                pass
+
     def stop(self):
         self.stopping = True
         try:
